@@ -13,7 +13,10 @@ use crate::task_handle::TaskHandle;
 use crate::ZmqResult;
 
 use futures::channel::oneshot;
-use futures::{select, FutureExt};
+use futures::stream::FuturesUnordered;
+use futures::{select, FutureExt, StreamExt};
+
+use std::panic::AssertUnwindSafe;
 
 use std::path::Path;
 
@@ -48,6 +51,8 @@ where
     let (stop_channel, stop_callback) = oneshot::channel::<()>();
     let task_handle = async_rt::task::spawn(async move {
         let mut stop_callback = stop_callback.fuse();
+        // See the TCP transport: handshakes run inside this task so that they end with it.
+        let mut handshakes = FuturesUnordered::new();
         loop {
             select! {
                 incoming = listener.accept().fuse() => {
@@ -55,14 +60,17 @@ where
                         let peer_addr = peer_addr.as_pathname().map(|a| a.to_owned());
                         (make_framed(raw_socket), Endpoint::Ipc(peer_addr))
                     }).map_err(|err| err.into());
-                    async_rt::task::spawn(cback(maybe_accepted));
+                    // A panic in one handshake must stay confined to that connection.
+                    handshakes.push(AssertUnwindSafe(cback(maybe_accepted)).catch_unwind());
                 },
+                _ = handshakes.select_next_some() => {},
                 _ = stop_callback => {
                     log::debug!("Accept task received stop signal. {:?}", listener_addr);
                     break
                 }
             }
         }
+        drop(handshakes);
         drop(listener);
         if let Some(listener_addr) = listener_addr {
             #[cfg(any(feature = "async-std-runtime", feature = "async-dispatcher-runtime"))]
